@@ -7,7 +7,7 @@ from worlds import chartgen
 
 PID = 'C03'
 SCHEDULE_DEPENDENT = False
-RULE = ('seeded state trees (general stratum: all shapes; deep stratum: chains to depth 8 with initial transitions '
+RULE = ('seeded state trees (general stratum: all shapes; deep stratum: chains to depth 16 with initial transitions '
         'that skip several levels), every state as start state, every host and build; oracle: the ENTRY/INIT '
         'invocations and entry/init actions recorded inside the handlers during start_at equal the reference start '
         'sequence (outside-in entries, then the init chain), nothing is exited, resting state = last init target. '
@@ -25,7 +25,7 @@ ORACLES = [co.check_start]
 def generate(seed, stratum, tier):
   rng = random.Random(seed)
   if stratum == 'deep':
-    kw = {'shape': 'chain', 'nstates': rng.randrange(6, 15), 'deep': True, 'p_react': 0.2}
+    kw = {'shape': 'chain', 'nstates': rng.randrange(6, 19), 'max_depth': 16, 'deep': rng.random() < 0.6, 'p_init': 0.7, 'p_react': 0.2}
   else:
     kw = {'p_react': 0.2}
   sc = cc.gen_chart_scenario(rng, spec_kw=kw, nops=(0, 3))
